@@ -47,6 +47,8 @@ def build(c, noise_bg):
             s.add_noise(0.5, 2.0)
         else:
             s.add_signal(_bgf(p))
+        if c.get('cplx_bg'):
+            s.add_signal(_cplx)          # (sub-box) the shared background carries a complex custom source; the antennas' own streams are real
     return arr
 
 
@@ -87,7 +89,7 @@ def case_array(c):
             except Exception:
                 pass
     clock_ops = [None, ('set', 50.0), ('reset',), ('add', 3.0), ('set0',), ('bgupd',)]
-    for noise_bg in (False, True):
+    for noise_bg in ((False,) if c.get('cplx_bg') else (False, True)):
         twin = None
         if noise_bg:
             tw = build(c, True)
@@ -180,6 +182,8 @@ def case_array(c):
                                 want = own + twin[p][idx]
                             else:
                                 want = own + _bgf(p)(times + (mx - delays[i]))
+                            if c.get('cplx_bg'):
+                                want = want + _cplx(times + (mx - delays[i]))
                             got = out[i][p]
                             if not np.allclose(got, want, rtol=1e-12, atol=1e-9):
                                 b = int(np.argmax(np.abs(got - want)))
@@ -231,6 +235,7 @@ def run(ctx):
         for npol in (1, 2):
             cases.append(dict(n=len(dl), delays=dl, npol=npol, N=N, t_start=0.0, seed=21 + ctx.seed, all_cuts=False, cplx=True))
             cases.append(dict(n=len(dl), delays=dl, npol=npol, N=N, t_start=20.0, seed=21 + ctx.seed, all_cuts=False))
+            cases.append(dict(n=len(dl), delays=dl, npol=npol, N=N, t_start=0.0, seed=21 + ctx.seed, all_cuts=False, cplx_bg=True))
     # request sizes as numpy fixed-width integers near the top of their range (size + largest delay does not fit the type)
     for nt, comps, dl in (('uint8', [[200, 150, 130], [255, 101, 254]], [0, 100]), ('int8', [[100, 120, 127], [127, 31]], [30, 0]),
                           ('int16', [[200, 150, 130]], [0, 100]), ('uint8', [[200, 150]], [100, 0, 57])):
